@@ -11,8 +11,13 @@ import Verif.Lemmas.UnknownEnc
 import Verif.Lemmas.UnknownSpecEnc
 namespace Verif.C13
 
-/-- The depth limit the source declares is the one C13 is claimed for. -/
-theorem maxdepth_is_64 : Facts.ufMaxRecursionDepth = 64 := rfl
+/-- The depth limit the source declares: 65 = the 64 container levels Binary.Skip accepts plus the innermost
+    scalar (which readUnknownField counts as a level). C13 is claimed for nesting ≤ this constant; the
+    statements below are generic in it (`MD`), so the regenerated constant flows through. -/
+theorem maxdepth_value : Facts.ufMaxRecursionDepth = 65 := rfl
+
+/-- maxRecursionDepth of the source -/
+abbrev MD : Nat := Facts.ufMaxRecursionDepth
 
 /-- ConvertUnknownFields of zero bytes returns its documented error (DESIGN §6.2). -/
 theorem convert_empty : convertUF [] = .err .empty := rfl
@@ -34,10 +39,10 @@ theorem write_convert_at (m : Nat) (b : Bytes) (h : EncFields m b) :
     simp [convertM, this, hc]
   · simp [WTs, wts, hall, hnn hpos]
 
-/-- C13, first half, for the real entry points (depth limit 64). -/
-theorem write_convert (b : Bytes) (h : EncFields 64 b) :
-    ∃ fs, convertUF b = .ok fs ∧ writeUFs 64 fs = .ok b ∧ lenUFs 64 fs = .ok b.length ∧ WTs 64 fs :=
-  write_convert_at 64 b h
+/-- C13, first half, for the real entry points (depth limit `maxRecursionDepth`). -/
+theorem write_convert (b : Bytes) (h : EncFields MD b) :
+    ∃ fs, convertUF b = .ok fs ∧ writeUFs MD fs = .ok b ∧ lenUFs MD fs = .ok b.length ∧ WTs MD fs :=
+  write_convert_at MD b h
 
 /-- tree → bytes → tree, for every depth limit m: a sequence of ≥ 1 well-typed field trees of nesting ≤ m
     (the type `UF m` bounds the nesting) is written without error or panic, and converting the written
@@ -58,10 +63,10 @@ theorem convert_write_at (m : Nat) (fs : List (UF m)) (h : WTs m fs) :
   simp only [convertM, if_neg hpos]
   exact hr bs 0 (bs.length + 1) (by omega) (by simp) (by omega)
 
-/-- C13, second half, for the real entry points (depth limit 64; `UF 64` = trees of nesting ≤ 64). -/
-theorem convert_write (fs : List (UF 64)) (h : WTs 64 fs) :
-    ∃ bs, writeUFs 64 fs = .ok bs ∧ convertUF bs = .ok fs :=
-  convert_write_at 64 fs h
+/-- C13, second half, for the real entry points (`UF MD` = trees of nesting ≤ maxRecursionDepth). -/
+theorem convert_write (fs : List (UF MD)) (h : WTs MD fs) :
+    ∃ bs, writeUFs MD fs = .ok bs ∧ convertUF bs = .ok fs :=
+  convert_write_at MD fs h
 
 /-- every well-typed tree is written without error or panic, at any depth -/
 theorem write_ok_of_WT (d : Nat) (fs : List (UF d)) (h : WTs d fs) : ∃ bs, writeUFs d fs = .ok bs :=
@@ -90,21 +95,21 @@ theorem enc_is_grammar (d : Nat) (t : UInt8) (b : Bytes) (k : Nat) (h : encLen d
 def exBytes : Bytes :=
   [0x0c, 0, 1,  0x0d, 0, 1, 0x08, 0x0a, 0, 0, 0, 0,  0x08, 0, 2, 0, 0, 0, 7,  0]
 
-def exTree : List (UF 64) :=
+def exTree : List (UF MD) :=
   [(⟨1, 12, 0, 0⟩, .fields [(⟨1, 13, 8, 10⟩, .fields []), (⟨2, 8, 0, 0⟩, .i32 7)])]
 
-example : EncFields 64 exBytes := by decide
-example : WTs 64 exTree := by decide
+example : EncFields MD exBytes := by decide
+example : WTs MD exTree := by decide
 example : convertUF exBytes = .ok exTree := by decide
-example : writeUFs 64 exTree = .ok exBytes := by decide
-example : lenUFs 64 exTree = .ok 20 := by decide
-example : ufSpecEncs 64 exTree = exBytes := by decide
+example : writeUFs MD exTree = .ok exBytes := by decide
+example : lenUFs MD exTree = .ok 20 := by decide
+example : ufSpecEncs MD exTree = exBytes := by decide
 
 /-- the tree the unfixed code produced (field 2 inherits the map's tags) is *not* well typed -/
-example : ¬ WTs 64 [(⟨1, 12, 0, 0⟩, .fields [(⟨1, 13, 8, 10⟩, .fields []), (⟨2, 8, 8, 10⟩, .i32 7)])] := by decide
+example : ¬ WTs MD [(⟨1, 12, 0, 0⟩, .fields [(⟨1, 13, 8, 10⟩, .fields []), (⟨2, 8, 8, 10⟩, .i32 7)])] := by decide
 
 /-- a non-canonical boolean byte is outside the byte domain (and does not round-trip: it is written as 0) -/
-example : ¬ EncFields 64 [2, 0, 1, 5] := by decide
-example : (convertUF [2, 0, 1, 5]).bind (writeUFs 64) = .ok [2, 0, 1, 0] := by decide
+example : ¬ EncFields MD [2, 0, 1, 5] := by decide
+example : (convertUF [2, 0, 1, 5]).bind (writeUFs MD) = .ok [2, 0, 1, 0] := by decide
 
 end Verif.C13
